@@ -351,18 +351,18 @@ func (f *Frame) enterLoop(h *ssa.BasicBlock, li *loopInfo, live []inEdge, header
 	// The path condition at loop entry talks about SSA values defined before
 	// the loop and heap versions that existed before the loop; it stays valid
 	// in every iteration and is kept.
-	st.Reach = c.define("reach", And(r, f.entryFacts(entry)))
+	st.Reach = c.reachAnd(f.entryFacts(entry), r)
 	keys, cells, all := f.loopModified(li)
+	na := c.fresh("loopalloc", SInt)
+	c.assert(Ge(na, entry.Alloc))
+	st.Alloc = na
 	if all {
 		c.havocAllHeap(st)
 	}
 	for k := range keys {
 		cur := c.heapGet(st, k, c.eng.keySort(k))
-		st.Heap[k] = c.fresh("loopheap", cur.Sort)
+		c.setHeap(st, k, c.fresh("loopheap", cur.Sort))
 	}
-	na := c.fresh("loopalloc", SInt)
-	c.assert(Ge(na, entry.Alloc))
-	st.Alloc = na
 	for cell := range cells {
 		st.Cells[cell] = c.freshLeaves("loopcell_"+cell.Name, cell.Typ)
 		st.assume(c, typeInv(cell.Typ, st.Cells[cell]))
